@@ -116,7 +116,9 @@ class _MainTimeThread(TimeThread):
         # In RT _MainThread sets logical time to physical time when
         # this property is invoked and then spreads to child routines.
         if _libsc3.main is _libsc3.RtMain:
-            _libsc3.main._update_logical_time(_libsc3.main.elapsed_time())
+            with _libsc3.main._main_lock:  # a clock's wake up must not get in between
+                _libsc3.main._update_logical_time(_libsc3.main.elapsed_time())
+                return self._m_seconds
         return self._m_seconds
 
     @property
